@@ -42,9 +42,11 @@ func NewReader(r io.Reader) (*Reader, error) {
 
 	for {
 		l, err := sr.r.ReadBytes('\n')
-		if err != nil {
+		if err != nil && (err != io.EOF || len(l) == 0) {
 			return nil, io.ErrUnexpectedEOF
 		}
+		// The last header line of an input without
+		// records may lack the newline.
 		b = append(b, l...)
 		p, err := sr.r.Peek(1)
 		if err == io.EOF {
